@@ -196,7 +196,9 @@ func (m *monitor) filter(update database.Update) ovsdb.TableUpdates {
 			}
 			return nil
 		})
-		tus[table] = tu
+		if len(tu) > 0 {
+			tus[table] = tu
+		}
 	}
 	return tus
 }
@@ -228,7 +230,9 @@ func (m *monitor) filter2(update database.Update) ovsdb.TableUpdates2 {
 			}
 			return nil
 		})
-		tus2[table] = tu2
+		if len(tu2) > 0 {
+			tus2[table] = tu2
+		}
 	}
 	return tus2
 }
